@@ -158,7 +158,6 @@ class HistSpec(Spec):
     def collect(self, agg, res):
         agg.add_stats({"model_resyncs": res.get("resyncs", 0), "clock_jumps": res.get("clock_jumps", 0)})
         w = res.get("world") or {}
-        agg.add_stats({"fault.restart_total": 0})
         c = res.get("cfg", {})
         if res.get("engine") == "sched":
             agg.add_stats({"overlapping_request_schedules": res.get("schedules", 0)})
